@@ -337,7 +337,7 @@ func genCase(rt *rapid.T) rtCase {
 	c.RealWrap = rapid.Bool().Draw(rt, "realWrap")
 	c.Scrub = rapid.IntRange(0, 3).Draw(rt, "scrub") == 0
 	c.Retain = rapid.IntRange(0, 3).Draw(rt, "retain") == 0
-	c.RSA = rapid.IntRange(0, 1).Draw(rt, "rsa")
+	c.RSA = rapid.SampledFrom([]int{0, 0, 0, 0, 0, 1, 1, 1, 1, 1, 2, 2, 3}).Draw(rt, "rsa") // 2048, 3072, 4096, 8192 bits
 	base := rapid.SampledFrom(keyNames).Draw(rt, "keyName")
 	c.KeyName = base
 	if rapid.Bool().Draw(rt, "hasDecName") {
@@ -364,6 +364,9 @@ func genCase(rt *rapid.T) rtCase {
 
 // TestRoundTripRapid: the generated product of lengths x ciphers x algorithms x
 // key-name options x wrap functions x source / consumer read scripts.
+// rsaOfIdx spreads the four key-encryption keys over swept cases (the large keys are slow: the 8192-bit key in one case of seventeen).
+var rsaOfIdx = []int{0, 1, 0, 1, 2, 0, 1, 0, 1, 0, 3, 1, 0, 1, 0, 1, 0}
+
 func TestRoundTripRapid(t *testing.T) {
 	sec := vk.Sec("RoundTripRapid")
 	vk.Check(t, 2500, 320000, func(rt *rapid.T) {
@@ -414,7 +417,7 @@ func TestBoundarySweep(t *testing.T) {
 								continue
 							}
 						}
-						c := rtCase{Len: L, Seed: uint64(idx) * 0x9e3779b97f4a7c15, CipherOpt: cipherOpt, Alg: allAlgs[idx%len(allAlgs)], RealWrap: idx%2 == 0, Scrub: idx%5 == 0, Retain: idx%3 == 0, RSA: idx % 2,
+						c := rtCase{Len: L, Seed: uint64(idx) * 0x9e3779b97f4a7c15, CipherOpt: cipherOpt, Alg: allAlgs[idx%len(allAlgs)], RealWrap: idx%2 == 0, Scrub: idx%5 == 0, Retain: idx%3 == 0, RSA: rsaOfIdx[idx%len(rsaOfIdx)],
 							KeyName: keyNames[idx%len(keyNames)], Src: ss, SrcEOFWith: eofWith, EncCons: cons, CtSrc: srcStyles[(si+ci+1)%len(srcStyles)], CtEOFWith: idx%4 < 2, DecCons: decCons,
 							RefOrder: [][]string{nil, {"np", "cph", "wfk", "kw", "k"}}[idx%2], RefSolidus: idx%3 == 0, RefUnicode: idx%5 == 0, RefEmptySeg: idx%2 == 1, RefCipher: 1 + idx%2}
 						if c.CtSrc != nil && len(c.CtSrc) == 2 && c.CtSrc[0] == refenc.SegmentSize-1 {
@@ -458,7 +461,7 @@ func TestOptionSweep(t *testing.T) {
 						if !vk.Mine(idx) {
 							continue
 						}
-						c := rtCase{Len: []int{0, 11, 3000}[idx%3], Seed: uint64(idx)*0x2545f4914f6cdd1d + 1, CipherOpt: cipherOpt, Alg: alg, RealWrap: real, RSA: idx % 2,
+						c := rtCase{Len: []int{0, 11, 3000}[idx%3], Seed: uint64(idx)*0x2545f4914f6cdd1d + 1, CipherOpt: cipherOpt, Alg: alg, RealWrap: real, RSA: rsaOfIdx[idx%len(rsaOfIdx)],
 							KeyName: keyNames[idx%len(keyNames)], RefOmitK: refOmit, RefCipher: 1 + (idx/2)%2, RefSolidus: idx%2 == 0, RefUnicode: idx%3 == 0, RefEmptySeg: idx%4 < 2}
 						if combo&1 != 0 {
 							c.DecName = keyNames[(idx+3)%len(keyNames)] + "#dec"
